@@ -1,4 +1,5 @@
 import LentilVerif.Lemmas.Propagate
+import LentilVerif.Lemmas.Canvas
 /-! # C02 — far-field propagation puts the Fraunhofer field on the right output samples
 
 Property theorems only. The integer window logic is the *generated* kernel (`Gen.dftWindow`, `Gen.maskShape`,
@@ -113,6 +114,33 @@ theorem propagateField_extent (t : TField K R) (αr αc : R) (oe : Extent) (P0 P
     unfold propagateField at hg
     rw [dftWindow_none oe P0 P1 t.fix0 t.fix1 hn] at hg
     cases hg
+
+/-- **`Wavefront.field` of the propagated wavefront, sample by sample.** For any list of input fields (each with its own
+shift `fix + sub`), any sampling ratios, output shape `S`, propagation shape `P`, oversampling `os` and mask box: the
+sample `[i][j]` of the output array (`0 ≤ i < S0·os`, `0 ≤ j < S1·os`) is the sum over the input fields of the unitary
+`dft2` sum of that field evaluated at the sample's global coordinate `g = (i - ⌊S0·os/2⌋, j - ⌊S1·os/2⌋)` relative to
+the field's shifted centre, restricted to the fields whose window `out_extent ∩ prop_extent` contains `g` — in particular
+**exactly zero** where no field evaluates it. -/
+theorem propagateDft_sample {K R : Type} [CommRing R] [RealLike R] [Semiring K] [CxLike K R]
+    (hcast : ∀ n : Int, (RealLike.ofInt n : R) = (n : R))
+    (fs : List (TField K R)) (αr αc : R) (S0 S1 P0 P1 os : Int) (mask : Option Extent)
+    (hoe : (outExtent (S0 * os) (S1 * os) mask).rmin ≤ (outExtent (S0 * os) (S1 * os) mask).rmax ∧
+           (outExtent (S0 * os) (S1 * os) mask).cmin ≤ (outExtent (S0 * os) (S1 * os) mask).cmax)
+    (hP : 0 < P0 * os ∧ 0 < P1 * os) (i j : Int) (hi : 0 ≤ i ∧ i < S0 * os) (hj : 0 ≤ j ∧ j < S1 * os) :
+    (wavefrontField 1 (propagateDft fs αr αc S0 S1 P0 P1 os mask) (S0 * os) (S1 * os)).get i j =
+      (fs.map fun t =>
+        if (outExtent (S0 * os) (S1 * os) mask).inb (i - S0 * os / 2) (j - S1 * os / 2) &&
+           (propExtent (P0 * os) (P1 * os) t.fix0 t.fix1).inb (i - S0 * os / 2) (j - S1 * os / 2)
+        then fraunhoferAt t.fld αr αc (RealLike.ofInt (i - S0 * os / 2 - t.fix0) - t.sub0)
+               (RealLike.ofInt (j - S1 * os / 2 - t.fix1) - t.sub1)
+        else 0).sum := by
+  rw [wavefrontField_get _ _ _ i j hi hj]
+  unfold propagateDft
+  rw [sum_filterMap_embO]
+  congr 1
+  apply List.map_congr_left
+  intro t _
+  exact propagateField_sample hcast t αr αc _ _ _ hoe hP _ _
 
 /-! ## Non-vacuity: the hypotheses are satisfiable by concrete, non-trivial instances -/
 section
